@@ -16,6 +16,7 @@ PROPS = {
     "C14": ("c14", "other"),
     "C19": ("c19", "other"),
     "C08": ("c08", "other"),
+    "C09": ("c09", "other"),
     "C12": ("c12_c13", "translation_validation"),
     "C13": ("c12_c13", "translation_validation"),
 }
